@@ -129,4 +129,26 @@ event bus does shut the socket down — an event caused by the *volume* of other
 theorem bus_lag_shuts_down (self : Nat) : handleEvent self .busLagged = .shutDown := by
   simp [handleEvent, Gen.busLagShutsSocketDown]
 
+-- the delay is really waited ----------------------------------------------------------------------------------------------------------------
+
+/-- however many system events of OTHER sockets arrive while a connecter waits for its next attempt, and whenever they
+arrive: the attempt starts after exactly the scheduled delay (the schedule of `connDelay` is what happens, not just what is
+computed) -/
+theorem retry_delay_is_waited_out (delay : Nat) (evs : List (Nat × WaitEv)) (h : ∀ e ∈ evs, e.2 = .unrelated) :
+    retryWait (Gen.connecterWaitsOutItsDelay == 1) delay evs = some delay := by
+  have hg : (Gen.connecterWaitsOutItsDelay == 1) = true := by decide
+  rw [hg]
+  induction evs with
+  | nil => rfl
+  | cons e rest ih =>
+    obtain ⟨t, w⟩ := e
+    have hw : w = .unrelated := h (t, w) (by simp)
+    subst hw
+    simp only [retryWait, if_true]
+    exact ih (fun e he => h e (by simp [he]))
+
+/-- the earlier shape: the first event of any other socket ended the wait - with a busy context the retries came as fast as
+the events -/
+theorem any_event_used_to_end_the_wait : retryWait false 300 [(5, .unrelated)] = some 5 := by decide
+
 end Rzmq.C17
